@@ -1,1 +1,880 @@
-fn main() {}
+//! C18 — the C interface keeps ownership and memory contracts.
+//!
+//! E6: explorer of well-typed call sequences (create* ; use* ; release, every handle released exactly once
+//! through its matching function) over the extern "C" surface, executed under an auditing global
+//! allocator that records (pointer -> size, align) for every live allocation and checks every
+//! deallocation / reallocation against it: unknown pointer (double free, foreign pointer), layout
+//! mismatch (deallocation size or alignment differs from the allocation) and leaks (live-set delta of
+//! a measured run after a warm-up run). Value oracles: results equal the native Rust API.
+
+use redirectionio::action::Action;
+use redirectionio::filter::{Buffer, FilterBodyAction};
+use redirectionio::http::{Header, Request};
+use serde_json::{json, Value};
+use std::alloc::{GlobalAlloc, Layout, System};
+use std::collections::BTreeSet;
+use std::sync::atomic::{AtomicBool, AtomicI64, AtomicUsize, Ordering};
+use verif_mc::common::{finish, Coverage, Ctx, Samples, Tier, Violation};
+use verif_mc::ffi::*;
+
+// ------------------------------------------------------------------------------------------------
+// auditing allocator (no allocation inside: fixed open-addressing table in static memory)
+
+const CAP: usize = 1 << 21;
+#[derive(Clone, Copy)]
+struct Entry {
+    ptr: usize,
+    size: usize,
+    align: usize,
+}
+const EMPTY: usize = 0;
+const TOMB: usize = 1;
+
+struct Table {
+    entries: std::cell::UnsafeCell<[Entry; CAP]>,
+    lock: AtomicBool,
+}
+unsafe impl Sync for Table {}
+
+static TABLE: Table = Table { entries: std::cell::UnsafeCell::new([Entry { ptr: EMPTY, size: 0, align: 0 }; CAP]), lock: AtomicBool::new(false) };
+static LIVE_COUNT: AtomicI64 = AtomicI64::new(0);
+static LIVE_BYTES: AtomicI64 = AtomicI64::new(0);
+static JUDGING: AtomicBool = AtomicBool::new(false);
+
+#[derive(Clone, Copy, Debug)]
+struct AuditEvent {
+    kind: u8, // 1 = unknown pointer on dealloc, 2 = layout mismatch on dealloc, 3 = unknown on realloc, 4 = layout mismatch on realloc
+    alloc_size: usize,
+    alloc_align: usize,
+    free_size: usize,
+    free_align: usize,
+}
+const MAX_EVENTS: usize = 64;
+struct Events {
+    items: std::cell::UnsafeCell<[AuditEvent; MAX_EVENTS]>,
+    len: AtomicUsize,
+}
+unsafe impl Sync for Events {}
+static EVENTS: Events = Events { items: std::cell::UnsafeCell::new([AuditEvent { kind: 0, alloc_size: 0, alloc_align: 0, free_size: 0, free_align: 0 }; MAX_EVENTS]), len: AtomicUsize::new(0) };
+
+fn lock() {
+    while TABLE.lock.compare_exchange_weak(false, true, Ordering::Acquire, Ordering::Relaxed).is_err() {
+        std::hint::spin_loop();
+    }
+}
+fn unlock() {
+    TABLE.lock.store(false, Ordering::Release);
+}
+fn slot_of(ptr: usize) -> usize {
+    (ptr >> 4).wrapping_mul(0x9E3779B97F4A7C15) as usize % CAP
+}
+unsafe fn table_insert(ptr: usize, size: usize, align: usize) {
+    let t = &mut *TABLE.entries.get();
+    let mut i = slot_of(ptr);
+    loop {
+        if t[i].ptr == EMPTY || t[i].ptr == TOMB {
+            t[i] = Entry { ptr, size, align };
+            return;
+        }
+        i = (i + 1) % CAP;
+    }
+}
+unsafe fn table_remove(ptr: usize) -> Option<Entry> {
+    let t = &mut *TABLE.entries.get();
+    let mut i = slot_of(ptr);
+    let mut probes = 0;
+    loop {
+        if t[i].ptr == EMPTY || probes > CAP {
+            return None;
+        }
+        if t[i].ptr == ptr {
+            let e = t[i];
+            t[i].ptr = TOMB;
+            return Some(e);
+        }
+        i = (i + 1) % CAP;
+        probes += 1;
+    }
+}
+fn record(ev: AuditEvent) {
+    if !JUDGING.load(Ordering::Relaxed) {
+        return;
+    }
+    let n = EVENTS.len.fetch_add(1, Ordering::Relaxed);
+    if n < MAX_EVENTS {
+        unsafe {
+            (*EVENTS.items.get())[n] = ev;
+        }
+    }
+}
+
+struct Auditor;
+
+unsafe impl GlobalAlloc for Auditor {
+    unsafe fn alloc(&self, layout: Layout) -> *mut u8 {
+        let p = System.alloc(layout);
+        if !p.is_null() {
+            lock();
+            table_insert(p as usize, layout.size(), layout.align());
+            unlock();
+            LIVE_COUNT.fetch_add(1, Ordering::Relaxed);
+            LIVE_BYTES.fetch_add(layout.size() as i64, Ordering::Relaxed);
+        }
+        p
+    }
+    unsafe fn alloc_zeroed(&self, layout: Layout) -> *mut u8 {
+        let p = System.alloc_zeroed(layout);
+        if !p.is_null() {
+            lock();
+            table_insert(p as usize, layout.size(), layout.align());
+            unlock();
+            LIVE_COUNT.fetch_add(1, Ordering::Relaxed);
+            LIVE_BYTES.fetch_add(layout.size() as i64, Ordering::Relaxed);
+        }
+        p
+    }
+    unsafe fn dealloc(&self, ptr: *mut u8, layout: Layout) {
+        lock();
+        let e = table_remove(ptr as usize);
+        unlock();
+        match e {
+            None => {
+                // double free or foreign pointer: do not forward (the system allocator would corrupt its heap)
+                record(AuditEvent { kind: 1, alloc_size: 0, alloc_align: 0, free_size: layout.size(), free_align: layout.align() });
+            }
+            Some(e) => {
+                LIVE_COUNT.fetch_sub(1, Ordering::Relaxed);
+                LIVE_BYTES.fetch_sub(e.size as i64, Ordering::Relaxed);
+                if e.size != layout.size() || e.align != layout.align() {
+                    record(AuditEvent { kind: 2, alloc_size: e.size, alloc_align: e.align, free_size: layout.size(), free_align: layout.align() });
+                }
+                // release with the layout it was allocated with
+                System.dealloc(ptr, Layout::from_size_align_unchecked(e.size, e.align));
+            }
+        }
+    }
+    unsafe fn realloc(&self, ptr: *mut u8, layout: Layout, new_size: usize) -> *mut u8 {
+        lock();
+        let e = table_remove(ptr as usize);
+        unlock();
+        let real = match e {
+            None => {
+                record(AuditEvent { kind: 3, alloc_size: 0, alloc_align: 0, free_size: layout.size(), free_align: layout.align() });
+                // cannot realloc an unknown pointer safely: allocate fresh memory
+                let p = System.alloc(Layout::from_size_align_unchecked(new_size, layout.align()));
+                if !p.is_null() {
+                    lock();
+                    table_insert(p as usize, new_size, layout.align());
+                    unlock();
+                    LIVE_COUNT.fetch_add(1, Ordering::Relaxed);
+                    LIVE_BYTES.fetch_add(new_size as i64, Ordering::Relaxed);
+                }
+                return p;
+            }
+            Some(e) => {
+                if e.size != layout.size() || e.align != layout.align() {
+                    record(AuditEvent { kind: 4, alloc_size: e.size, alloc_align: e.align, free_size: layout.size(), free_align: layout.align() });
+                }
+                e
+            }
+        };
+        let p = System.realloc(ptr, Layout::from_size_align_unchecked(real.size, real.align), new_size);
+        lock();
+        if p.is_null() {
+            table_insert(ptr as usize, real.size, real.align);
+        } else {
+            table_insert(p as usize, new_size, real.align);
+        }
+        unlock();
+        if !p.is_null() {
+            LIVE_BYTES.fetch_add(new_size as i64 - real.size as i64, Ordering::Relaxed);
+        }
+        p
+    }
+}
+
+#[global_allocator]
+static GLOBAL: Auditor = Auditor;
+
+fn take_events() -> Vec<AuditEvent> {
+    let n = EVENTS.len.swap(0, Ordering::Relaxed).min(MAX_EVENTS);
+    let mut v = Vec::new();
+    for i in 0..n {
+        v.push(unsafe { (*EVENTS.items.get())[i] });
+    }
+    v
+}
+
+// ------------------------------------------------------------------------------------------------
+// call alphabet
+
+#[derive(Clone, Copy, Debug, PartialEq, Eq, PartialOrd, Ord, serde::Serialize, serde::Deserialize)]
+pub enum Call {
+    RequestCreate(u8),
+    RequestFromStr,
+    RequestJsonDeserialize,
+    ActionJsonDeserialize(u8),
+    BodyFilterCreate(u8),
+    TrustedProxiesCreate,
+    BufferFromVec(u8),
+    BufferFromString(u8),
+    RequestJsonSerialize,
+    ActionJsonSerialize,
+    GetStatusCode,
+    HeaderFilterFilter(u8),
+    BodyFilterFilter,
+    BodyFilterFilterNull,
+    ShouldLogRequest,
+    SetRemoteAddr,
+    AddProxy,
+    CreateLogInJson,
+    BufferDuplicate,
+    BufferClone,
+    RequestDrop,
+    ActionDrop,
+    BodyFilterDrop,
+    BodyFilterClose,
+    BufferDrop,
+    GetApiVersion,
+}
+
+pub const CALLS: &[Call] = &[
+    Call::RequestCreate(0),
+    Call::RequestCreate(1),
+    Call::RequestFromStr,
+    Call::RequestJsonDeserialize,
+    Call::ActionJsonDeserialize(0),
+    Call::ActionJsonDeserialize(1),
+    Call::BodyFilterCreate(0),
+    Call::BodyFilterCreate(1),
+    Call::TrustedProxiesCreate,
+    Call::BufferFromVec(0),
+    Call::BufferFromVec(1),
+    Call::BufferFromVec(2),
+    Call::BufferFromVec(3),
+    Call::BufferFromString(0),
+    Call::BufferFromString(1),
+    Call::RequestJsonSerialize,
+    Call::ActionJsonSerialize,
+    Call::GetStatusCode,
+    Call::HeaderFilterFilter(0),
+    Call::HeaderFilterFilter(1),
+    Call::BodyFilterFilter,
+    Call::BodyFilterFilterNull,
+    Call::ShouldLogRequest,
+    Call::SetRemoteAddr,
+    Call::AddProxy,
+    Call::CreateLogInJson,
+    Call::BufferDuplicate,
+    Call::BufferClone,
+    Call::RequestDrop,
+    Call::ActionDrop,
+    Call::BodyFilterDrop,
+    Call::BodyFilterClose,
+    Call::BufferDrop,
+    Call::GetApiVersion,
+];
+
+fn action_json(kind: u8) -> String {
+    let body_filters = if kind == 0 {
+        json!([{"filter": {"action": "append_child", "value": "<i>v</i>", "inner_value": null, "element_tree": ["html", "body"], "css_selector": null, "id": null, "target_hash": null},
+                "on_response_status_codes": [], "exclude_response_status_codes": false, "rule_id": "r"},
+               {"filter": {"action": "append_text", "content": "T", "id": null, "target_hash": null}, "on_response_status_codes": [], "exclude_response_status_codes": false, "rule_id": "r"}])
+    } else {
+        json!([])
+    };
+    json!({
+        "status_code_update": {"status_code": 302, "on_response_status_codes": [], "exclude_response_status_codes": false, "fallback_status_code": 0, "rule_id": "r", "fallback_rule_id": null, "unit_id": null, "target_hash": null},
+        "header_filters": [{"filter": {"action": "override", "header": "Location", "value": "/t", "id": null, "target_hash": null}, "on_response_status_codes": [], "exclude_response_status_codes": false, "rule_id": "r"},
+                           {"filter": {"action": "add", "header": "X-A", "value": "2", "id": null, "target_hash": null}, "on_response_status_codes": [], "exclude_response_status_codes": false, "rule_id": "r"}],
+        "body_filters": body_filters,
+        "rule_ids": ["r"], "rule_traces": [{"id": "r", "on_response_status_codes": [], "exclude_response_status_codes": false}], "rules_applied": [], "log_override": null
+    })
+    .to_string()
+}
+
+fn buffer_payload(kind: u8) -> Vec<u8> {
+    match kind {
+        0 => Vec::new(),
+        1 => vec![b'x'],
+        2 => {
+            let mut v = b"<html><body>".to_vec();
+            v.extend(std::iter::repeat(b'a').take(4096));
+            v.extend_from_slice(b"</body></html>");
+            v.shrink_to_fit();
+            v
+        }
+        _ => {
+            // capacity != length
+            let mut v = Vec::with_capacity(257);
+            v.extend_from_slice(b"<html><body>cap</body></html>");
+            v
+        }
+    }
+}
+
+struct World {
+    request: *mut Request,
+    action: *mut Action,
+    filter: *mut FilterBodyAction,
+    proxies: *mut CTrustedProxies,
+    buffer: Option<(Buffer, Vec<u8>)>,
+    /// native mirrors for the value oracles
+    native_action: Option<Action>,
+    native_filter: Option<FilterBodyAction>,
+    used_proxies: bool,
+    mismatches: Vec<(String, String)>,
+}
+
+impl World {
+    fn new() -> World {
+        World {
+            request: std::ptr::null_mut(),
+            action: std::ptr::null_mut(),
+            filter: std::ptr::null_mut(),
+            proxies: std::ptr::null_mut(),
+            buffer: None,
+            native_action: None,
+            native_filter: None,
+            used_proxies: false,
+            mismatches: Vec::new(),
+        }
+    }
+
+    fn key(&self) -> String {
+        format!(
+            "R{}A{}F{}T{}B{}",
+            !self.request.is_null() as u8,
+            !self.action.is_null() as u8,
+            !self.filter.is_null() as u8,
+            !self.proxies.is_null() as u8,
+            match &self.buffer {
+                None => "-".to_string(),
+                Some((_, bytes)) => format!("{}", bytes.len().min(9999)),
+            }
+        )
+    }
+
+    /// is the call well-typed in this state (a handle is used after create and before its single release;
+    /// at most one live object per kind)
+    fn enabled(&self, c: Call) -> bool {
+        use Call::*;
+        match c {
+            RequestCreate(_) | RequestFromStr | RequestJsonDeserialize => self.request.is_null(),
+            ActionJsonDeserialize(_) => self.action.is_null(),
+            BodyFilterCreate(_) => !self.action.is_null() && self.filter.is_null(),
+            TrustedProxiesCreate => self.proxies.is_null(),
+            BufferFromVec(_) | BufferFromString(_) => self.buffer.is_none(),
+            RequestJsonSerialize | RequestDrop => !self.request.is_null(),
+            ActionJsonSerialize | GetStatusCode | HeaderFilterFilter(_) | ShouldLogRequest | ActionDrop => !self.action.is_null(),
+            BodyFilterFilter => !self.filter.is_null() && self.buffer.is_some(),
+            BodyFilterFilterNull | BufferDuplicate | BufferClone | BufferDrop => self.buffer.is_some(),
+            SetRemoteAddr | CreateLogInJson => !self.request.is_null(),
+            AddProxy => !self.proxies.is_null(),
+            BodyFilterDrop | BodyFilterClose => !self.filter.is_null(),
+            GetApiVersion => true,
+        }
+    }
+
+    fn mismatch(&mut self, kind: &str, what: String) {
+        self.mismatches.push((kind.to_string(), what));
+    }
+
+    unsafe fn exec(&mut self, c: Call) {
+        use Call::*;
+        match c {
+            RequestCreate(k) => {
+                let uri = OwnedC::new("/p?b=2&a=1&utm_source=x");
+                let host = OwnedC::new("h.example");
+                let scheme = OwnedC::new("https");
+                let method = OwnedC::new("POST");
+                let h = if k == 0 {
+                    OwnedHeaders::new(&[(Some("X-Forwarded-For"), Some("10.0.0.1, 10.0.0.2")), (Some("User-Agent"), Some("ua"))])
+                } else {
+                    OwnedHeaders::new(&[])
+                };
+                self.request = redirectionio_request_create(uri.ptr(), host.ptr(), if k == 0 { scheme.ptr() } else { std::ptr::null() }, if k == 0 { method.ptr() } else { std::ptr::null() }, h.ptr()) as *mut Request;
+                if self.request.is_null() {
+                    self.mismatch("request_create-null", "request_create returned NULL".into());
+                } else {
+                    let r = &*self.request;
+                    if r.host.as_deref() != Some("h.example") || r.path_and_query_skipped.original != "/p?b=2&a=1&utm_source=x" || r.headers.len() != if k == 0 { 2 } else { 0 } {
+                        self.mismatch("request_create-content", format!("{r:?}"));
+                    }
+                }
+            }
+            RequestFromStr => {
+                let url = OwnedC::new("https://h.example/p?a=1");
+                self.request = redirectionio_request_from_str(url.ptr()) as *mut Request;
+                let native = "https://h.example/p?a=1".parse::<Request>().ok();
+                match (self.request.is_null(), native) {
+                    (false, Some(n)) => {
+                        let mut a = (*self.request).clone();
+                        a.created_at = None;
+                        let mut b = n;
+                        b.created_at = None;
+                        if serde_json::to_string(&a).ok() != serde_json::to_string(&b).ok() {
+                            self.mismatch("request_from_str-differs-from-native", format!("{a:?} vs {b:?}"));
+                        }
+                    }
+                    (true, None) => {}
+                    _ => self.mismatch("request_from_str-differs-from-native", "one is null".into()),
+                }
+            }
+            RequestJsonDeserialize => {
+                let js = r#"{"path_and_query":{"path_and_query":"/p?a=1","path_and_query_matching":"/p?a=1","skipped_query_params":null,"original":"/p?a=1"},"path_and_query_v2":"/p?a=1","host":"h.example","scheme":"https","method":"GET","headers":[{"name":"X-A","value":"1"}],"remote_addr":"10.0.0.1","created_at":"2024-06-01T10:00:00Z","sampling_override":null}"#;
+                let s = OwnedC::new(js);
+                self.request = redirectionio_request_json_deserialize(s.mut_ptr()) as *mut Request;
+                if self.request.is_null() {
+                    self.mismatch("request_json_deserialize-null", "valid request JSON gave NULL".into());
+                }
+            }
+            ActionJsonDeserialize(k) => {
+                let js = action_json(k);
+                let s = OwnedC::new(&js);
+                self.action = redirectionio_action_json_deserialize(s.mut_ptr()) as *mut Action;
+                self.native_action = serde_json::from_str(&js).ok();
+                if self.action.is_null() {
+                    self.mismatch("action_json_deserialize-null", "valid action JSON gave NULL".into());
+                }
+            }
+            BodyFilterCreate(k) => {
+                let h = if k == 0 { OwnedHeaders::new(&[(Some("Content-Type"), Some("text/html"))]) } else { OwnedHeaders::new(&[(Some("Content-Type"), Some("application/json")), (Some("Content-Encoding"), Some("zstd"))]) };
+                self.filter = redirectionio_action_body_filter_create(self.action, 200, h.ptr()) as *mut FilterBodyAction;
+                let nh: Vec<Header> = if k == 0 {
+                    vec![Header { name: "Content-Type".into(), value: "text/html".into() }]
+                } else {
+                    vec![Header { name: "Content-Type".into(), value: "application/json".into() }, Header { name: "Content-Encoding".into(), value: "zstd".into() }]
+                };
+                self.native_filter = self.native_action.as_mut().and_then(|a| a.create_filter_body(200, &nh));
+                if self.filter.is_null() != self.native_filter.is_none() {
+                    self.mismatch("body_filter_create-differs-from-native", format!("ffi null: {}, native none: {}", self.filter.is_null(), self.native_filter.is_none()));
+                }
+            }
+            TrustedProxiesCreate => {
+                let s = OwnedC::new("10.0.0.0/8, 127.0.0.1");
+                self.proxies = redirectionio_trusted_proxies_create(s.ptr()) as *mut CTrustedProxies;
+                self.used_proxies = true;
+            }
+            BufferFromVec(k) => {
+                let bytes = buffer_payload(k);
+                let mut v = Vec::with_capacity(if k == 3 { 257 } else { bytes.len() });
+                v.extend_from_slice(&bytes);
+                self.buffer = Some((Buffer::from_vec(v), bytes));
+            }
+            BufferFromString(k) => {
+                let s = if k == 0 { String::from("héllo <b>") } else { String::with_capacity(100) + "cap" };
+                let bytes = s.as_bytes().to_vec();
+                self.buffer = Some((Buffer::from_string(s), bytes));
+            }
+            RequestJsonSerialize => {
+                let got = take_string(redirectionio_request_json_serialize(self.request));
+                let want = serde_json::to_string(&*self.request).ok();
+                if got != want {
+                    self.mismatch("request_json_serialize-differs-from-native", format!("{got:?} vs {want:?}"));
+                }
+            }
+            ActionJsonSerialize => {
+                let got = take_string(redirectionio_action_json_serialize(self.action));
+                let want = serde_json::to_string(&*self.action).ok();
+                if got != want {
+                    self.mismatch("action_json_serialize-differs-from-native", format!("{got:?} vs {want:?}"));
+                }
+            }
+            GetStatusCode => {
+                let got = redirectionio_action_get_status_code(self.action, 0);
+                let want = self.native_action.as_mut().map(|a| a.get_status_code(0, None)).unwrap_or(0);
+                if got != want {
+                    self.mismatch("get_status_code-differs-from-native", format!("{got} vs {want}"));
+                }
+            }
+            HeaderFilterFilter(k) => {
+                let entries: Vec<(Option<&str>, Option<&str>)> = if k == 0 { vec![(Some("Location"), Some("/old")), (Some("X-A"), Some("1")), (Some("x-a"), Some(""))] } else { vec![] };
+                let h = OwnedHeaders::new(&entries);
+                let out = redirectionio_action_header_filter_filter(self.action, h.ptr(), 200, k == 0);
+                let mut got = if out == h.ptr() { entries.iter().map(|(n, v)| (n.unwrap().to_string(), v.unwrap().to_string())).collect() } else { take_header_list(out) };
+                let native_in: Vec<Header> = entries.iter().map(|(n, v)| Header { name: n.unwrap().to_string(), value: v.unwrap().to_string() }).collect();
+                let mut want: Vec<(String, String)> =
+                    self.native_action.as_mut().map(|a| a.filter_headers(native_in, 200, k == 0, None)).unwrap_or_default().into_iter().map(|h| (h.name, h.value)).collect();
+                got.sort();
+                want.sort();
+                if got != want {
+                    self.mismatch("header_filter_filter-differs-from-native", format!("{got:?} vs {want:?}"));
+                }
+            }
+            BodyFilterFilter => {
+                let (b, bytes) = self.buffer.take().unwrap();
+                let out = redirectionio_action_body_filter_filter(self.filter, b);
+                let out_bytes = out.to_vec();
+                let want = self.native_filter.as_mut().map(|f| f.filter(bytes.clone(), None)).unwrap_or(bytes);
+                if out_bytes != want {
+                    self.mismatch("body_filter_filter-differs-from-native", format!("{:?} vs {:?}", String::from_utf8_lossy(&out_bytes), String::from_utf8_lossy(&want)));
+                }
+                self.buffer = Some((out, out_bytes));
+            }
+            BodyFilterFilterNull => {
+                // contract: with a NULL filter the input buffer stays the caller's, the result is a duplicate
+                let (b, bytes) = self.buffer.take().unwrap();
+                let alias: Buffer = std::ptr::read(&b);
+                let out = redirectionio_action_body_filter_filter(std::ptr::null_mut(), alias);
+                let out_bytes = out.to_vec();
+                if out_bytes != bytes {
+                    self.mismatch("body_filter_filter(NULL)-not-a-copy", format!("{} bytes vs {} bytes", out_bytes.len(), bytes.len()));
+                }
+                redirectionio_api_buffer_drop(out);
+                self.buffer = Some((b, bytes));
+            }
+            ShouldLogRequest => {
+                let got = redirectionio_action_should_log_request(self.action, true, 200);
+                let want = self.native_action.as_mut().map(|a| a.should_log_request(true, 200, None)).unwrap_or(true);
+                if got != want {
+                    self.mismatch("should_log_request-differs-from-native", format!("{got} vs {want}"));
+                }
+            }
+            SetRemoteAddr => {
+                let addr = OwnedC::new("10.0.0.9:4321");
+                redirectionio_request_set_remote_addr(self.request, addr.ptr(), self.proxies);
+                if (*self.request).remote_addr.is_none() {
+                    self.mismatch("set_remote_addr-not-set", "remote address not set from a valid address".into());
+                }
+            }
+            AddProxy => {
+                let p = OwnedC::new("192.168.0.0/16");
+                redirectionio_trusted_proxies_add_proxy(self.proxies, p.ptr());
+            }
+            CreateLogInJson => {
+                let h = OwnedHeaders::new(&[(Some("Location"), Some("/t")), (Some("Content-Type"), Some("text/html"))]);
+                let proxy = OwnedC::new("nginx");
+                let ip = OwnedC::new("10.0.0.1");
+                let got = take_string(redirectionio_api_create_log_in_json(self.request, 302, h.ptr(), self.action, proxy.ptr(), 1717236000000, ip.ptr()));
+                match got.and_then(|s| serde_json::from_str::<Value>(&s).ok()) {
+                    None => self.mismatch("create_log_in_json-invalid", "no valid JSON returned".into()),
+                    Some(v) => {
+                        if v["code"] != json!(302) || v["to"] != json!("/t") || v["proxy"] != json!("nginx") {
+                            self.mismatch("create_log_in_json-content", v.to_string());
+                        }
+                    }
+                }
+            }
+            BufferDuplicate | BufferClone => {
+                let (b, bytes) = self.buffer.take().unwrap();
+                let d = if c == BufferDuplicate { b.duplicate() } else { b.clone() };
+                let db = d.to_vec();
+                if db != bytes {
+                    self.mismatch("buffer-duplicate-differs", format!("{} bytes vs {} bytes", db.len(), bytes.len()));
+                }
+                let again = b.to_vec();
+                if again != bytes {
+                    self.mismatch("buffer-changed-by-duplicate", "original buffer changed".into());
+                }
+                redirectionio_api_buffer_drop(d);
+                self.buffer = Some((b, bytes));
+            }
+            RequestDrop => {
+                redirectionio_request_drop(self.request);
+                self.request = std::ptr::null_mut();
+            }
+            ActionDrop => {
+                redirectionio_action_drop(self.action);
+                self.action = std::ptr::null_mut();
+                self.native_action = None;
+            }
+            BodyFilterDrop => {
+                redirectionio_action_body_filter_drop(self.filter);
+                self.filter = std::ptr::null_mut();
+                self.native_filter = None;
+            }
+            BodyFilterClose => {
+                let out = redirectionio_action_body_filter_close(self.filter);
+                let got = out.to_vec();
+                let want = self.native_filter.as_mut().map(|f| f.end(None)).unwrap_or_default();
+                if got != want {
+                    self.mismatch("body_filter_close-differs-from-native", format!("{:?} vs {:?}", String::from_utf8_lossy(&got), String::from_utf8_lossy(&want)));
+                }
+                redirectionio_api_buffer_drop(out);
+                self.filter = std::ptr::null_mut();
+                self.native_filter = None;
+            }
+            BufferDrop => {
+                let (b, bytes) = self.buffer.take().unwrap();
+                let back = b.to_vec();
+                if back != bytes {
+                    self.mismatch("buffer-roundtrip-differs", format!("{} bytes vs {} bytes", back.len(), bytes.len()));
+                }
+                redirectionio_api_buffer_drop(b);
+            }
+            GetApiVersion => {
+                let v = take_string(redirectionio_api_get_rule_api_version());
+                if v.as_deref() != Some("2.0.0") {
+                    self.mismatch("api-version", format!("{v:?}"));
+                }
+            }
+        }
+    }
+
+    /// release whatever is still live, each through its matching function, exactly once
+    unsafe fn release_all(&mut self) {
+        if !self.filter.is_null() {
+            self.exec(Call::BodyFilterClose);
+        }
+        if !self.action.is_null() {
+            self.exec(Call::ActionDrop);
+        }
+        if !self.request.is_null() {
+            self.exec(Call::RequestDrop);
+        }
+        if self.buffer.is_some() {
+            self.exec(Call::BufferDrop);
+        }
+        self.native_action = None;
+        self.native_filter = None;
+    }
+}
+
+#[derive(Debug)]
+struct RunResult {
+    events: Vec<AuditEvent>,
+    leak_count: i64,
+    leak_bytes: i64,
+    mismatches: Vec<(String, String)>,
+    used_proxies: bool,
+    keys: Vec<String>,
+}
+
+fn run_sequence(seq: &[Call], judge: bool) -> RunResult {
+    take_events();
+    JUDGING.store(judge, Ordering::Relaxed);
+    let (mismatches, used_proxies, keys) = unsafe {
+        let mut w = World::new();
+        let mut keys = Vec::with_capacity(seq.len());
+        for c in seq {
+            w.exec(*c);
+            keys.push(w.key());
+        }
+        w.release_all();
+        (std::mem::take(&mut w.mismatches), w.used_proxies, keys)
+    };
+    JUDGING.store(false, Ordering::Relaxed);
+    let events = take_events();
+    RunResult { events, leak_count: 0, leak_bytes: 0, mismatches, used_proxies, keys }
+}
+
+/// a run that keeps nothing: the live set after it must be what it was before
+fn leak_probe(seq: &[Call]) -> (i64, i64) {
+    let c0 = LIVE_COUNT.load(Ordering::Relaxed);
+    let b0 = LIVE_BYTES.load(Ordering::Relaxed);
+    unsafe {
+        let mut w = World::new();
+        for c in seq {
+            w.exec(*c);
+        }
+        w.release_all();
+        drop(w);
+    }
+    (LIVE_COUNT.load(Ordering::Relaxed) - c0, LIVE_BYTES.load(Ordering::Relaxed) - b0)
+}
+
+fn signatures(seq: &[Call], warm: &RunResult, res: &RunResult) -> Vec<(String, String)> {
+    let mut out = Vec::new();
+    let culprit = |seq: &[Call]| -> String {
+        // name the kinds of calls in the sequence that allocate / release buffers and objects
+        let mut kinds: BTreeSet<String> = BTreeSet::new();
+        for c in seq {
+            kinds.insert(format!("{c:?}").split('(').next().unwrap_or("").to_string());
+        }
+        kinds.into_iter().collect::<Vec<_>>().join("+")
+    };
+    for e in &res.events {
+        let (kind, detail) = match e.kind {
+            1 => ("free-of-unknown-pointer", format!("dealloc(size {}, align {}) of a pointer that is not a live allocation (double free or foreign pointer)", e.free_size, e.free_align)),
+            2 => ("dealloc-layout-mismatch", format!("allocated with size {} align {}, deallocated with size {} align {}", e.alloc_size, e.alloc_align, e.free_size, e.free_align)),
+            3 => ("realloc-of-unknown-pointer", format!("realloc(size {}) of a pointer that is not live", e.free_size)),
+            _ => ("realloc-layout-mismatch", format!("allocated with size {} align {}, reallocated as size {} align {}", e.alloc_size, e.alloc_align, e.free_size, e.free_align)),
+        };
+        let class = if e.kind == 2 || e.kind == 4 {
+            if e.alloc_size != e.free_size { "size-differs" } else { "align-differs" }
+        } else {
+            "pointer-not-live"
+        };
+        out.push((format!("{kind}:{class}"), format!("{detail}; sequence {seq:?}")));
+    }
+    // leaks: the measured (second) run must not grow the live set; TrustedProxies are documented as never freed
+    let _ = warm;
+    if !res.used_proxies && (res.leak_bytes != 0 || res.leak_count != 0) {
+        out.push((format!("leak:{}", culprit(seq)), format!("{} allocation(s) / {} byte(s) still live after every handle was released; sequence {seq:?}", res.leak_count, res.leak_bytes)));
+    }
+    for (k, w) in &res.mismatches {
+        out.push((format!("value:{k}"), format!("{w}; sequence {seq:?}")));
+    }
+    out.sort();
+    out.dedup_by(|a, b| a.0 == b.0);
+    out
+}
+
+fn check_sequence(seq: &[Call]) -> (Vec<(String, String)>, Vec<String>) {
+    // warm-up run (lazy statics, regex pools, thread locals), then the measured run
+    let warm = run_sequence(seq, false);
+    let mut res = run_sequence(seq, true);
+    // leak probe twice: the second delta is the steady-state one
+    let _ = leak_probe(seq);
+    let (lc, lb) = leak_probe(seq);
+    res.leak_count = lc;
+    res.leak_bytes = lb;
+    (signatures(seq, &warm, &res), res.keys)
+}
+
+fn enumerate(prefix: &mut Vec<Call>, world_enabled: &dyn Fn(&[Call]) -> Vec<Call>, max: usize, out: &mut Vec<Vec<Call>>) {
+    if !prefix.is_empty() {
+        out.push(prefix.clone());
+    }
+    if prefix.len() == max {
+        return;
+    }
+    for c in world_enabled(prefix) {
+        prefix.push(c);
+        enumerate(prefix, world_enabled, max, out);
+        prefix.pop();
+    }
+}
+
+/// well-typedness is decided on an abstract slot model (no execution)
+fn enabled_after(prefix: &[Call]) -> Vec<Call> {
+    #[derive(Default)]
+    struct Slots {
+        r: bool,
+        a: Option<u8>,
+        f: bool,
+        t: bool,
+        b: bool,
+    }
+    let mut s = Slots::default();
+    use Call::*;
+    for c in prefix {
+        match c {
+            RequestCreate(_) | RequestFromStr | RequestJsonDeserialize => s.r = true,
+            ActionJsonDeserialize(k) => s.a = Some(*k),
+            // creation legitimately yields NULL when no filter applies (action without body filters, non-HTML / unsupported encoding)
+            BodyFilterCreate(k) => s.f = *k == 0 && s.a == Some(0),
+            TrustedProxiesCreate => s.t = true,
+            BufferFromVec(_) | BufferFromString(_) => s.b = true,
+            RequestDrop => s.r = false,
+            ActionDrop => s.a = None,
+            BodyFilterDrop | BodyFilterClose => s.f = false,
+            BufferDrop => s.b = false,
+            _ => {}
+        }
+    }
+    CALLS
+        .iter()
+        .copied()
+        .filter(|c| match c {
+            RequestCreate(_) | RequestFromStr | RequestJsonDeserialize => !s.r,
+            ActionJsonDeserialize(_) => s.a.is_none(),
+            BodyFilterCreate(_) => s.a.is_some() && !s.f,
+            TrustedProxiesCreate => !s.t,
+            BufferFromVec(_) | BufferFromString(_) => !s.b,
+            RequestJsonSerialize | RequestDrop | SetRemoteAddr | CreateLogInJson => s.r,
+            ActionJsonSerialize | GetStatusCode | HeaderFilterFilter(_) | ShouldLogRequest => s.a.is_some(),
+            // an action may only be dropped when no filter created from it is still alive? (filters are independent objects: allowed)
+            ActionDrop => s.a.is_some(),
+            BodyFilterFilter => s.f && s.b,
+            BodyFilterFilterNull | BufferDuplicate | BufferClone | BufferDrop => s.b,
+            AddProxy => s.t,
+            BodyFilterDrop | BodyFilterClose => s.f,
+            GetApiVersion => prefix.is_empty(),
+        })
+        .collect()
+}
+
+fn replay(case: &Value) -> Vec<String> {
+    let seq: Vec<Call> = match serde_json::from_value(case["sequence"].clone()) {
+        Ok(s) => s,
+        Err(_) => return vec![],
+    };
+    check_sequence(&seq).0.into_iter().map(|(s, _)| s).collect()
+}
+
+fn main() {
+    let args: Vec<String> = std::env::args().collect();
+    verif_mc::common::quiet_panics();
+    if args.len() >= 3 && args[1] == "replay" {
+        let text = std::fs::read_to_string(&args[2]).expect("read replay");
+        let doc: Value = serde_json::from_str(&text).expect("parse replay");
+        let sigs = replay(&doc["case"]);
+        println!("replay produced signatures: {sigs:?}");
+        if sigs.iter().any(|s| Some(s.as_str()) == doc["signature"].as_str()) {
+            println!("VIOLATION property=C18 replay={}", args[2]);
+            std::process::exit(1);
+        }
+        std::process::exit(0);
+    }
+    if args.len() < 3 || args[1] != "C18" {
+        eprintln!("usage: ffi_audit C18 <quick|thorough> | ffi_audit replay <file>");
+        std::process::exit(2);
+    }
+    let tier = match std::env::var("VERIF_TIER").ok().as_deref().unwrap_or(args[2].as_str()) {
+        "thorough" => Tier::Thorough,
+        _ => Tier::Quick,
+    };
+    let ctx = Ctx::new("C18", tier, "model_checking");
+    let max = tier.pick(4, 5);
+    let mut seqs = Vec::new();
+    enumerate(&mut Vec::new(), &enabled_after, max, &mut seqs);
+    let mut states: BTreeSet<String> = BTreeSet::new();
+    let mut transitions = 0u64;
+    let samples = Samples::new(6);
+    let mut skipped_ill_typed = 0u64;
+    for (i, seq) in seqs.iter().enumerate() {
+        if i % 4096 == 0 && ctx.over_budget() {
+            ctx.set_capped(format!("wall budget {}s: {} of {} sequences", ctx.budget_s(), i, seqs.len()));
+            break;
+        }
+        // the slot model is optimistic about filter creation; skip sequences that are ill-typed at run time
+        let well_typed = unsafe {
+            let mut w = World::new();
+            let mut ok = true;
+            for c in seq {
+                if !w.enabled(*c) {
+                    ok = false;
+                    break;
+                }
+                w.exec(*c);
+            }
+            w.release_all();
+            ok
+        };
+        if !well_typed {
+            skipped_ill_typed += 1;
+            continue;
+        }
+        ctx.eval(1);
+        transitions += seq.len() as u64 + 1;
+        let (viol, keys) = check_sequence(seq);
+        for k in keys {
+            states.insert(k);
+        }
+        for (sig, what) in viol {
+            ctx.report(Violation { signature: sig, what, case: json!({"sequence": seq}), weight: seq.len() as u64 });
+        }
+        if i % 9973 == 5 {
+            samples.offer(|| json!(seq.iter().map(|c| format!("{c:?}")).collect::<Vec<_>>()));
+        }
+    }
+    let mut cov = Coverage::new();
+    cov.set("states", json!(states.len() + 1))
+        .set("transitions", json!(transitions))
+        .set("traces_validated_against_impl", json!(ctx.evaluations.load(Ordering::Relaxed)))
+        .set("samples", json!(samples.take()))
+        .set("distinct_nontrivial", json!(ctx.evaluations.load(Ordering::Relaxed)))
+        .set("rule", json!("evaluations = well-typed call sequences executed twice (warm-up, then measured under the auditing allocator); states = distinct configurations of live handles (request, action, filter, proxies, buffer length) reached; transitions = calls executed in measured runs incl. the final releases"))
+        .set("sequences_enumerated", json!(seqs.len()))
+        .set("ill_typed_at_run_time_skipped", json!(skipped_ill_typed))
+        .set("max_sequence_length", json!(max))
+        .set("call_alphabet", json!(CALLS.iter().map(|c| format!("{c:?}")).collect::<Vec<_>>()))
+        .set("exhaustive", json!(true));
+    cov.assume("single-threaded driver; the allocator audit sees every allocation of the process (harness included), so a free with a wrong layout anywhere is reported")
+        .assume("TrustedProxies is documented as never freed: sequences that create one are excluded from the leak account (still audited for layout and double free)")
+        .assume("returned strings and header-list nodes have no exported release function: the harness releases them the way they were allocated (CString::from_raw, Box<HeaderMap>), which is part of the audit");
+    let code = finish(&ctx, cov, &replay);
+    std::process::exit(code);
+}
